@@ -442,6 +442,23 @@ def execute(q, prop_id, workroot, replay_dir):
         r.detail = err
         return r
     r = run_cbmc(q, gb, wd)
+    # A failed unwinding assertion means "bound too small for this loop", not a property failure: retry with larger
+    # bounds (code under test may contain constant-bounded loops, e.g. a search in a table of specials).
+    tries = 0
+    q_eff = q
+    while (r.status == 'FAIL' and r.props_failed and tries < 3 and
+           all(('.unwind.' in (pid or '')) or d.startswith('unwinding assertion') for pid, d, _ in r.props_failed)):
+        tries += 1
+        import copy
+        q_eff = copy.copy(q_eff)
+        q_eff.unwind = max(int((q_eff.unwind or 8) * 2), 40)
+        q_eff.unwindset = {k: max(v * 2, 40) for k, v in q_eff.unwindset.items()}
+        r2 = run_cbmc(q_eff, gb, wd)
+        r2.detail = (r2.detail + ' [unwinding bound raised to %d after an unwinding assertion failed]' % q_eff.unwind).strip()
+        r2.wall += r.wall
+        r = r2
+    only_unwind = (r.status == 'FAIL' and r.props_failed and
+                   all(('.unwind.' in (pid or '')) or d.startswith('unwinding assertion') for pid, d, _ in r.props_failed))
     # replay: failures (violations) and cover samples (encoding validation)
     need_native = q.replay and (r.props_failed or r.covers_hit)
     exe = None
@@ -461,11 +478,22 @@ def execute(q, prop_id, workroot, replay_dir):
             seen.add(key)
             write_replay_file(path, q, 'violation', '%s: %s' % (pid, desc), seq)
             if exe and q.replay:
-                rc, out = run_native(exe, seq, wd, h)
+                try:
+                    rc, out = run_native(exe, seq, wd, h)
+                except subprocess.TimeoutExpired:
+                    rc, out = 1, 'ASSERT-FAIL: native run did not terminate within 60 s (non-termination)'
+                if only_unwind and rc == 0:
+                    # terminates natively: the loop is bounded, only our unwinding bound was too small even after retries
+                    r.status = 'INCONCLUSIVE'
+                    r.detail = 'unwinding bound too small even after retries (loop terminates natively): ' + summary[:200]
+                    continue
                 if rc in (1, 97, 98, 99) or rc < 0 or 'ASSERT-FAIL' in out or 'AddressSanitizer' in out or 'LeakSanitizer' in out or 'runtime error' in out:
                     r.violations.append((path, summary, out[-400:]))
                 else:
                     r.unconfirmed.append((path, summary, 'native rc=%d: %s' % (rc, out[-300:])))
+            elif not q.replay and only_unwind:
+                r.status = 'INCONCLUSIVE'
+                r.detail = 'unwinding bound too small even after retries: ' + summary[:200]
             elif not q.replay:
                 # harness-level property with no native counterpart (e.g. contract instrumentation)
                 r.violations.append((path, summary, 'not natively replayable: %s' % q.note))
